@@ -18,6 +18,7 @@
 #include <stdio.h>
 #include <stdlib.h>
 #include <string.h>
+#include <signal.h>
 
 /* Required by runtime/cli.c */
 int g_argc = 0;
@@ -214,6 +215,14 @@ int main(int argc, char *argv[]) {
     if (!nvm_path) {
         fprintf(stderr, "Error: No .nvm file specified\n");
         return 1;
+    }
+
+    /* With FFI isolation the VM writes to a co-process that may die at any
+     * time. A write to the dead co-process must come back as EPIPE so that the
+     * documented error path (report, relaunch on next call) runs, instead of
+     * SIGPIPE killing the VM. nano_vmd does the same for its sessions. */
+    if (g_isolate_ffi) {
+        signal(SIGPIPE, SIG_IGN);
     }
 
     if (daemon_mode) {
